@@ -10,6 +10,7 @@ one() {
   n=$1; d=$SCRATCH/$n; rm -rf "$d"; git -C /repo worktree prune
   git -C /repo worktree add -q --detach "$d/wt" HEAD 2>/dev/null || { echo "ERROR $n worktree"; return; }
   if ! git -C "$d/wt" apply /verif/seeded/$n/patch.diff 2>/dev/null && ! git -C "$d/wt" apply -3 /verif/seeded/$n/patch.diff 2>/dev/null; then echo "PATCH-DOES-NOT-APPLY $n"; git -C /repo worktree remove --force "$d/wt"; rm -rf "$d"; return; fi
+  if python3 -c "import json,sys; sys.exit(0 if json.load(open('/verif/seeded/$n/meta.json')).get('outside_given_properties') else 1)"; then echo "OUTSIDE $n (violates no given property as quantified; not checked by decision)"; git -C /repo worktree remove --force "$d/wt"; rm -rf "$d"; return; fi
   ids=$(python3 -c "import json,sys; m=json.load(open('/verif/seeded/$n/meta.json')); print(' '.join([m['property']]+m.get('also',[])))")
   res="MISSED $n (ran: $ids)"
   for id in $ids; do
